@@ -6,7 +6,7 @@ from .. import catalogue as K
 from .. import tys as T
 from .. import speccheck as S
 
-THEOREMS = []
+THEOREMS = ["c07_pairing", "c07_variant_scope", "c07_effective_key"]
 
 
 def plausible_keys(it):
